@@ -74,9 +74,11 @@ TNext ==
        [] e.a = "Step" /\ ~failed ->
             IF ENABLED StepOf(e) THEN StepOf(e) /\ UNCHANGED <<failed, bad>>
             ELSE failed' = TRUE /\ bad' = Append(bad, l) /\ UNCHANGED vars
-       [] e.a \in {"Skip", "Hung"} /\ ~failed -> failed' = TRUE /\ bad' = Append(bad, l) /\ UNCHANGED vars
+       \* a scripted step that the real code could not take: drift, unless the player had itself
+       \* inserted consumer steps (quiesce) or the script comes from a model with other constants
+       [] ((e.a = "Skip" /\ ~e.expected) \/ e.a = "Hung") /\ ~failed -> failed' = TRUE /\ bad' = Append(bad, l) /\ UNCHANGED vars
        [] OTHER -> UNCHANGED <<vars, failed, bad>>
 
 TSpec == TInit /\ [][TNext]_tvars
-Report == l <= Len(TraceLog) \/ PrintT(<<"BADLINES", ToJson(bad), "LINES", Len(TraceLog)>>)
+Report == l <= Len(TraceLog) \/ PrintT("@@BADLINES|" \o ToString(Len(TraceLog)) \o "|" \o ToJson(bad))
 =============================================================================
